@@ -114,6 +114,9 @@ func VerifC20_FindHTTPAddrs() {
 		{c20ma("/ip4/1.1.1.1/tcp/80"), false},
 		{c20ma("/dns/x.example/tcp/443/tls/http"), true},
 		{c20ma("/ip4/1.1.1.1/udp/1/quic-v1"), false},
+		// what maurl.FromURL produces for a URL with a path, and an address naming the peer
+		{c20ma("/dns/x.example/tcp/443/https/http-path/ipni-provider"), true},
+		{c20ma("/ip4/1.1.1.1/tcp/80/http/p2p/12D3KooWDGBNKP2MFMAvxW6LqMfUJYHkiUBQvzwqsAEKwPKqTzgQ"), true},
 		{nil, false},
 	}
 	n := verif_Choose("entries", 0, 3)
